@@ -56,9 +56,9 @@ RAWS = [
     ("list", [("int", 1), ("list", [("int", 2)])]), ("list", [("cmd", "nf_fin")]),
     ("dict", {}), ("dict", {"a": "b"}), ("dict", {"k": 5}), ("none",),
     ("cmd", "nf_fin"), ("cmd", "fz_fin"), ("cmd", "nf_un"), ("cmd", "fz_un"), ("cmd", "ech_fin"), ("cmd", "ech_un"),
-    ("type", "float"), ("type", "int"), ("type", "str"), ("np", "float64", 1.5), ("np", "int64", 3), ("ndarray",),
+    ("type", "float"), ("type", "int"), ("type", "str"), ("np", "float64", 1.5), ("np", "int64", 3), ("np", "float32", 2.5), ("np", "float32", -0.75), ("np", "float16", 0.5), ("np", "uint8", 7), ("ndarray",),
 ]
-WDS = ["none", "abs", "rel"]
+WDS = ["none", "abs", "rel", "empty"]  # "empty": working_dir == "" (what the CLI passes for a command file given by its bare name)
 
 
 def BOUND(tier):
@@ -130,7 +130,7 @@ def _context(wdname):
     if wdname == "abs2":
         os.makedirs(os.path.join(base, "second"), exist_ok=True)
         open(os.path.join(base, "second", "exists.csv"), "w").write("A\n2\n")
-    wd = {"none": None, "abs": base, "rel": os.path.relpath(base), "abs2": os.path.join(base, "second")}[wdname]
+    wd = {"none": None, "abs": base, "rel": os.path.relpath(base), "abs2": os.path.join(base, "second"), "empty": ""}[wdname]
     p = Program(libraries=LIBS, working_dir=wd)
     lib = p.command_library
     _SPEC["lib"] = lib
@@ -230,6 +230,10 @@ def _matches(exp, res, p):
         if isinstance(w, int):
             return isinstance(v, int) and not isinstance(v, bool) and v == w
         return type(v) is type(w) and v == w
+    if exp[0] == "be-num":
+        import numbers
+
+        return isinstance(v, numbers.Real) and not isinstance(v, bool) and float(v) == float(exp[1])
     if exp[0] == "be-cmd":
         return isinstance(v, Command) and v is p.commands[exp[1]]
     if exp[0] == "be-list":
